@@ -1,5 +1,6 @@
 import TLVerif.Util.Hex
 import TLVerif.Lint.Core
+import TLVerif.Lint.WireGen
 /-! Line-protocol handler for the `lint` family. A schema is one comma-separated token string
 (see `checks/lintlib.py` for the grammar); every line is a self-contained case. -/
 namespace TLVerif.Lint
@@ -151,6 +152,30 @@ def handle (op : String) (args : List String) : String :=
       if (layout os).oof || (layout ns).oof then "fuel"
       else verdictStr (lintCore os ns)
     | _, _ => "bad-op"
+  | "compat", [o, n] =>
+    match parseSchema o, parseSchema n with
+    | some os, some ns =>
+      if wireCompat os ns then "wc=1"
+      else "wc=0:" ++ "+".intercalate (dedup (compatReasons os ns))
+    | _, _ => "bad-op"
+  | "wire", [o, n, root, seed, _] =>
+    match parseSchema o, parseSchema n, seed.toNat? with
+    | some os, some ns, some sd =>
+      let r : Rng := ⟨sd * 2654435761 + 12345⟩
+      let oldNew : Option (Option Bytes × Option Bytes) :=
+        match findFunc os root with
+        | some f =>
+          (genFieldsWith (genTy 6 os) f Env.empty 0 f.fields r).map (fun p =>
+            (encFunc os true f p.1, (findFunc ns root).bind (fun f' => encFunc ns false f' p.1)))
+        | none =>
+          (genTy 7 os (.mk root false .nil) r).map (fun p =>
+            (encTy os true (.mk root false .nil) p.1, encTy ns false (.mk root false .nil) p.1))
+      match oldNew with
+      | none => "novalue"
+      | some (none, _) => "novalue"
+      | some (some bo, bn) =>
+        "ok " ++ hexOfBytes bo ++ " " ++ (match bn with | some b => hexOfBytes b | none => "err")
+    | _, _, _ => "bad-op"
   | _, _ => "bad-op"
 
 end TLVerif.Lint
